@@ -20,6 +20,7 @@ import (
 	"sort"
 	"strings"
 	"time"
+	"unicode/utf8"
 
 	tally "github.com/uber-go/tally/v4"
 	"github.com/uber-go/tally/v4/instrument"
@@ -51,6 +52,121 @@ type c10Case struct {
 	// Sched is the order in which the schedule controller resumes the threads.
 	Threads [][]c10Op `json:"threads,omitempty"`
 	Sched   []int     `json:"sched,omitempty"`
+	// San: ScopeOptions.SanitizeOptions of the root scope (nil = none; reporter-backed flavours only)
+	San *c10San `json:"san,omitempty"`
+}
+
+type c10Tab struct {
+	Ranges [][2]int32 `json:"ranges,omitempty"`
+	Chars  []int32    `json:"chars,omitempty"`
+}
+type c10San struct {
+	Rep   int32  `json:"rep"`
+	Name  c10Tab `json:"name"`
+	Key   c10Tab `json:"key"`
+	Value c10Tab `json:"value"`
+}
+
+func (t c10Tab) vc() tally.ValidCharacters {
+	v := tally.ValidCharacters{}
+	for _, r := range t.Ranges {
+		v.Ranges = append(v.Ranges, tally.SanitizeRange{r[0], r[1]})
+	}
+	for _, c := range t.Chars {
+		v.Characters = append(v.Characters, c)
+	}
+	return v
+}
+func (t c10Tab) ints() []int64 {
+	o := []int64{int64(len(t.Ranges))}
+	for _, r := range t.Ranges {
+		o = append(o, int64(r[0]), int64(r[1]))
+	}
+	o = append(o, int64(len(t.Chars)))
+	for _, c := range t.Chars {
+		o = append(o, int64(c))
+	}
+	return o
+}
+func (z *c10San) opts() *tally.SanitizeOptions {
+	if z == nil {
+		return nil
+	}
+	return &tally.SanitizeOptions{NameCharacters: z.Name.vc(), KeyCharacters: z.Key.vc(), ValueCharacters: z.Value.vc(), ReplacementCharacter: z.Rep}
+}
+func (z *c10San) ints() []int64 {
+	if z == nil {
+		return nil
+	}
+	o := []int64{int64(z.Rep)}
+	o = append(o, z.Name.ints()...)
+	o = append(o, z.Key.ints()...)
+	return append(o, z.Value.ints()...)
+}
+
+// apply: what the documentation of SanitizeOptions promises, written out
+// independently of sanitize.go: every character outside the table (and every
+// invalid byte) is replaced by the replacement character.
+func (t c10Tab) apply(rep int32, s string) string {
+	var b strings.Builder
+	changed := false
+	for i, w := 0, 0; i < len(s); i += w {
+		r, width := utf8.DecodeRuneInString(s[i:])
+		w = width
+		ok := !(r == utf8.RuneError && width == 1)
+		if ok {
+			ok = false
+			for _, g := range t.Ranges {
+				ok = ok || (r >= g[0] && r <= g[1])
+			}
+			for _, c := range t.Chars {
+				ok = ok || r == c
+			}
+		}
+		if ok {
+			b.WriteRune(r)
+		} else {
+			b.WriteRune(rep)
+			changed = true
+		}
+	}
+	if !changed {
+		return s
+	}
+	return b.String()
+}
+
+// c10Sanz: the three string functions and the separator of a root scope.
+type c10Sanz struct {
+	sn, sk, sv func(string) string
+	sep        string
+}
+
+func (z *c10San) fns() *c10Sanz {
+	id := func(x string) string { return x }
+	if z == nil {
+		return &c10Sanz{id, id, id, "."}
+	}
+	f := &c10Sanz{
+		sn: func(x string) string { return z.Name.apply(z.Rep, x) },
+		sk: func(x string) string { return z.Key.apply(z.Rep, x) },
+		sv: func(x string) string { return z.Value.apply(z.Rep, x) },
+	}
+	f.sep = f.sn(".")
+	return f
+}
+func (f *c10Sanz) fqn(prefix, name string) string {
+	if prefix == "" {
+		return name
+	}
+	return prefix + f.sep + name
+}
+func (f *c10Sanz) stags(m map[string]string) map[string]string {
+	o := map[string]string{}
+	for k, v := range m {
+		o[f.sk(k)] = f.sv(v)
+	}
+	return o
 }
 
 // brief renders a value list for messages: all of a short one, both ends of a long one.
@@ -79,13 +195,48 @@ func c10Tags(r *Rng, max int) map[B]B {
 	return m
 }
 
+// c10TagsZ: a tag map whose keys stay distinct after sanitizing (two keys
+// collapsing into one would make the surviving value depend on Go's map order).
+func c10TagsZ(r *Rng, max int, z *c10Sanz) map[B]B {
+	m := c10Tags(r, max)
+	seen := map[string]bool{}
+	keys := make([]string, 0, len(m))
+	for k := range m {
+		keys = append(keys, string(k))
+	}
+	sort.Strings(keys)
+	for _, k := range keys {
+		if seen[z.sk(k)] {
+			delete(m, B(k))
+		}
+		seen[z.sk(k)] = true
+	}
+	return m
+}
+
+var c10NamesSan = []string{"a", "b", "x_y", "", "é", "\xff", "latency", "a.b", "rpc latency (ms)", "a:b", "A B", "x/y", "q!", "rpc-0123456789"}
+
+var c10Tabs = []c10Tab{
+	{Ranges: [][2]int32{{'a', 'z'}, {'A', 'Z'}, {'0', '9'}}, Chars: []int32{'_'}},
+	{Ranges: [][2]int32{{'a', 'z'}, {'0', '9'}}, Chars: []int32{'-', '_', '.'}},
+	{Ranges: [][2]int32{{0x20, 0x7e}}},
+	{Ranges: [][2]int32{{'a', 'z'}, {'A', 'Z'}, {'0', '9'}, {0xC0, 0x17F}}, Chars: []int32{'.'}},
+	{},
+}
+
+func c10GenSan(r *Rng) *c10San {
+	return &c10San{Rep: []int32{'_', '_', '-', 'é'}[r.Intn(4)],
+		Name: c10Tabs[r.Intn(len(c10Tabs))], Key: c10Tabs[r.Intn(len(c10Tabs)-1)], Value: c10Tabs[r.Intn(len(c10Tabs))]}
+}
+
 // ---- bookkeeping shared by the generator and the direct predicate: what
 // each handle denotes, computed from the API contract alone (SubScope
 // extends the prefix, Tagged overrides tags, a metric lives in its scope
 // under its name).
 type c10Scope struct {
-	prefix string
+	prefix string // sanitized
 	tags   map[string]string
+	z      *c10Sanz
 }
 type c10Metric struct {
 	obj  string   // identity of the metric object: scope (prefix, tags) and name
@@ -105,12 +256,6 @@ type c10Sw struct {
 }
 type c10Call struct{ errC, okC, lat c10Metric }
 
-func fqn(prefix, name string) string {
-	if prefix == "" {
-		return name
-	}
-	return prefix + "." + name
-}
 func mergeTags(a, b map[string]string) map[string]string {
 	o := map[string]string{}
 	for k, v := range a {
@@ -121,15 +266,24 @@ func mergeTags(a, b map[string]string) map[string]string {
 	}
 	return o
 }
+
+// metric: the metric called name in scope s - a delivery carries the scope's
+// prefix, the separator and the sanitized name, and the scope's tags.
 func (s c10Scope) metric(name string) c10Metric {
-	st := nameTags(fqn(s.prefix, name), s.tags)
+	name = s.z.sn(name)
+	st := nameTags(s.z.fqn(s.prefix, name), s.tags)
 	return c10Metric{obj: fmt.Sprintf("%q|%q|%q", s.prefix, nameTags("", s.tags), name), strs: st}
 }
+func (s c10Scope) sub(name string) c10Scope {
+	return c10Scope{s.z.fqn(s.prefix, s.z.sn(name)), s.tags, s.z}
+}
+func (s c10Scope) tagged(t map[string]string) c10Scope {
+	return c10Scope{s.prefix, mergeTags(s.tags, s.z.stags(t)), s.z}
+}
 func (s c10Scope) callMetrics(name string) c10Call {
-	e := c10Scope{s.prefix, mergeTags(s.tags, map[string]string{"result_type": "error"})}
-	k := c10Scope{s.prefix, mergeTags(s.tags, map[string]string{"result_type": "success"})}
-	l := c10Scope{fqn(s.prefix, name), s.tags}
-	return c10Call{e.metric(name), k.metric(name), l.metric("latency")}
+	e := s.tagged(map[string]string{"result_type": "error"})
+	k := s.tagged(map[string]string{"result_type": "success"})
+	return c10Call{e.metric(name), k.metric(name), s.sub(name).metric("latency")}
 }
 
 // collides reports whether creating metric m of the kind would give two
@@ -151,7 +305,8 @@ func (b *c10Book) note(kind int, m c10Metric) {
 }
 
 func newBook(c *c10Case) *c10Book {
-	return &c10Book{scopes: []c10Scope{{string(c.Prefix), mergeTags(nil, tagsOf(c.Tags))}}}
+	z := c.San.fns()
+	return &c10Book{scopes: []c10Scope{{z.sn(string(c.Prefix)), z.stags(tagsOf(c.Tags)), z}}}
 }
 
 // apply updates the book for one op; clockAt is the number of clock readings
@@ -160,10 +315,10 @@ func (b *c10Book) apply(o c10Op, clock func(int) int64, clockAt int) int {
 	switch o.Op {
 	case "sub":
 		s := b.scopes[o.H]
-		b.scopes = append(b.scopes, c10Scope{fqn(s.prefix, string(o.Name)), s.tags})
+		b.scopes = append(b.scopes, s.sub(string(o.Name)))
 	case "tag":
 		s := b.scopes[o.H]
-		b.scopes = append(b.scopes, c10Scope{s.prefix, mergeTags(s.tags, tagsOf(o.Tags))})
+		b.scopes = append(b.scopes, s.tagged(tagsOf(o.Tags)))
 	case "timer":
 		m := b.scopes[o.H].metric(string(o.Name))
 		b.note(0, m)
@@ -207,9 +362,18 @@ func c10Gen(r *Rng, i int) c10Case {
 	names := c10Names
 	if test {
 		names = c10NamesNoDot
+	} else if r.Chance(35) {
+		// a sanitizing root scope: "carrying ... the scope's name and tags" - the
+		// name a delivery carries is the sanitized fully qualified name
+		c.San = c10GenSan(r)
+		names = c10NamesSan
 	}
+	z := c.San.fns()
 	c.Prefix = B(r.Pick([]string{"", "", "p", "svc.x", "é"}))
-	c.Tags = c10Tags(r, 2)
+	if c.San != nil && r.Bool() {
+		c.Prefix = B(r.Pick([]string{"svc", "my svc", "a:b"}))
+	}
+	c.Tags = c10TagsZ(r, 2, z)
 	// the clock script
 	nclk := 24
 	switch x := r.Intn(10); {
@@ -246,7 +410,7 @@ func c10Gen(r *Rng, i int) c10Case {
 		case x < 8:
 			o = c10Op{Op: "sub", H: r.Intn(len(bk.scopes)), Name: B(r.Pick(names))}
 		case x < 16:
-			o = c10Op{Op: "tag", H: r.Intn(len(bk.scopes)), Tags: c10Tags(r, 2)}
+			o = c10Op{Op: "tag", H: r.Intn(len(bk.scopes)), Tags: c10TagsZ(r, 2, z)}
 		case x < 30 || len(bk.timers) == 0:
 			o = c10Op{Op: "timer", H: r.Intn(len(bk.scopes)), Name: B(r.Pick(names))}
 			if test && bk.collides(0, bk.scopes[o.H].metric(string(o.Name))) {
@@ -359,14 +523,14 @@ func c10Run(c *c10Case) (in []Ev, obs []Ev, fail string) {
 	switch c.Flavour {
 	case 0:
 		root, _ = tally.NewRootScope(tally.ScopeOptions{Prefix: string(c.Prefix), Tags: tagsOf(c.Tags),
-			Reporter: &RecReporter{L: log, Caps: caps{true, true}}, OmitCardinalityMetrics: true}, 0)
+			Reporter: &RecReporter{L: log, Caps: caps{true, true}}, OmitCardinalityMetrics: true, SanitizeOptions: c.San.opts()}, 0)
 	case 1:
 		root, _ = tally.NewRootScope(tally.ScopeOptions{Prefix: string(c.Prefix), Tags: tagsOf(c.Tags),
-			CachedReporter: &RecCached{L: log, Caps: caps{true, true}}, OmitCardinalityMetrics: true}, 0)
+			CachedReporter: &RecCached{L: log, Caps: caps{true, true}}, OmitCardinalityMetrics: true, SanitizeOptions: c.San.opts()}, 0)
 	case 3:
 		root, _ = tally.NewRootScope(tally.ScopeOptions{Prefix: string(c.Prefix), Tags: tagsOf(c.Tags),
 			Reporter: &RecReporter{L: log, Caps: caps{true, true}}, CachedReporter: &RecCached{L: log, Caps: caps{true, true}},
-			OmitCardinalityMetrics: true}, 0)
+			OmitCardinalityMetrics: true, SanitizeOptions: c.San.opts()}, 0)
 	default:
 		ts = tally.NewTestScope(string(c.Prefix), tagsOf(c.Tags))
 		root = ts
@@ -380,7 +544,7 @@ func c10Run(c *c10Case) (in []Ev, obs []Ev, fail string) {
 	})
 	defer restore()
 
-	in = append(in, Ev{K: 40, S: nameTags(string(c.Prefix), tagsOf(c.Tags))})
+	in = append(in, Ev{K: 40, I: c.San.ints(), S: nameTags(string(c.Prefix), tagsOf(c.Tags))})
 	bk := newBook(c)
 	scopes := []tally.Scope{root}
 	var timers []tally.Timer
@@ -512,7 +676,11 @@ func c10Run(c *c10Case) (in []Ev, obs []Ev, fail string) {
 				case 13:
 					nA++
 					if m := c10Allocates(bk, o); m == nil || !sameStrs(m.strs, e.S) || len(e.I) != 1 {
-						failf(j, "AllocateTimer %v during a call that creates no such timer", e)
+						want := "no timer"
+						if m != nil {
+							want = fmt.Sprintf("the timer %q (sanitized fully qualified name, then the scope's tags)", m.strs)
+						}
+						failf(j, "AllocateTimer %v during a call that obtains %s", e, want)
 					} else if _, dup := cachedID[m.obj]; dup {
 						failf(j, "AllocateTimer %v: the timer object already has a handle", e)
 					} else {
@@ -941,6 +1109,26 @@ func c10Fixed() []c10Case {
 	}
 	for _, f := range []int{0, 1, 3} {
 		out = append(out, c10Case{Flavour: f, Prefix: "", Clock: []int64{}, Ops: ops2})
+	}
+	// a sanitizing root scope: names, prefixes, the separator, tag keys and values all go through it
+	ops3 := []c10Op{
+		{Op: "timer", H: 0, Name: "rpc latency (ms)"},
+		{Op: "rec", H: 0, D: 5},
+		{Op: "timer", H: 0, Name: "rpc_latency__ms_"},
+		{Op: "rec", H: 1, D: 6},
+		{Op: "sub", H: 0, Name: "db:1"},
+		{Op: "tag", H: 1, Tags: map[B]B{"shard id": "a b"}},
+		{Op: "timer", H: 2, Name: "q"},
+		{Op: "start", H: 2},
+		{Op: "stop", H: 0},
+		{Op: "call", H: 2, Name: "get user"},
+		{Op: "exec", H: 0, Err: true},
+		{Op: "exec", H: 0},
+		{Op: "pass"},
+	}
+	for _, f := range []int{1, 0, 3} {
+		out = append(out, c10Case{Flavour: f, Prefix: "svc", Tags: map[B]B{"data center": "eu west"}, Clock: []int64{10, 25, 40, 41, 50, 58},
+			San: &c10San{Rep: '_', Name: c10Tabs[0], Key: c10Tabs[0], Value: c10Tabs[1]}, Ops: ops3})
 	}
 	return out
 }
